@@ -200,12 +200,64 @@ def spawn_between_exit_and_sigchld(chk):
     return None
 
 
+def stopped_task(chk, parallel):
+    """(f) a task process is STOPPED (SIGSTOP / SIGTSTP: a job-control stop, a debugger attaching) while Conductor waits
+    for it, and continued later.  A stop is not an exit: its slot stays taken and, for a non-parallelizable task, nothing
+    else may start until it has really exited.  (The kernel sends SIGCHLD for a stop as well; a handler that asks
+    waitpid for stopped children would take the stop for an exit.)"""
+    root = implrun.make_project({"COND": ""})
+    par = "True" if parallel else "False"
+    cond = ('run_command(name="a", run="echo $$ > $COND_OUT/pid; kill -STOP $$; touch $COND_OUT/resumed", parallelizable=%s)\n' % par
+            + 'run_command(name="b", run="touch $COND_OUT/started; sleep 2.5", parallelizable=%s)\n' % par
+            + 'run_command(name="c", run="touch $COND_OUT/started", parallelizable=%s)\n' % par
+            + 'combine(name="all", deps=[":a", ":b", ":c"])\n')
+    open(os.path.join(root, "COND"), "w").write(cond)
+    argv = [PY, "-m", "conductor", "run", "//:all"] + (["-j", "2"] if parallel else [])
+    p = subprocess.Popen(argv, cwd=root, env=dict(os.environ, PYTHONPATH=SRC), stdout=subprocess.PIPE, stderr=subprocess.PIPE, start_new_session=True)
+    pidf = os.path.join(root, "cond-out", "a.task", "pid")
+    if not _wait_for(lambda: os.path.exists(pidf) and open(pidf).read().strip() != "", 20):
+        rc, text, _ = _finish(p, 1)
+        return "harness: task a did not start: %s" % text[-300:]
+    apid = int(open(pidf).read().strip())
+    if not _wait_for(lambda: _state(apid) == "T", 10):
+        rc, text, _ = _finish(p, 1)
+        return "harness: task a did not stop: %s" % text[-300:]
+
+    def started(n):
+        return os.path.exists(os.path.join(root, "cond-out", n + ".task", "started"))
+
+    before = {n: started(n) for n in ("b", "c")}
+    time.sleep(1.2)                      # a stays stopped
+    during = {n: started(n) for n in ("b", "c")}
+    msg = None
+    if not parallel:
+        # jobs = 1: nothing may start while a has not exited
+        newly = [n for n in ("b", "c") if during[n] and not before[n]]
+        if newly:
+            msg = "task //:a is stopped (not exited) and non-parallelizable, yet %s started meanwhile" % ["//:" + n for n in newly]
+    else:
+        # jobs = 2: a (stopped) and b (sleeping) hold the two slots; c must wait
+        if during["b"] and during["c"] and _state(apid) == "T":
+            msg = "with --jobs 2, //:a (stopped, not exited) and //:b hold both slots, yet //:c started as well: three tasks at once"
+    try:
+        os.kill(apid, signal.SIGCONT)
+    except OSError:
+        pass
+    rc, text, hung = _finish(p, 30)
+    if msg is None and hung:
+        msg = "cond run did not terminate after the stopped task was continued: %r" % text[-300:]
+    if msg is None and (rc != 0 or not os.path.exists(os.path.join(root, "cond-out", "a.task", "resumed"))):
+        msg = "after SIGCONT the run ended with %s (task a %s): %r" % (rc, "finished" if os.path.exists(os.path.join(root, "cond-out", "a.task", "resumed")) else "did not finish", text[-300:])
+    return msg
+
+
 def reaper_scenarios(chk, tier):
     scen = [("batch-exits-j2", lambda: batch_exits(chk, 2, 2)), ("batch-exits-j3-of-4", lambda: batch_exits(chk, 4, 3)),
             ("unrelated-child-7-then-0", lambda: unrelated_child(chk, 7, 0)), ("unrelated-child-0-then-3", lambda: unrelated_child(chk, 0, 3)),
             ("fast-exits", lambda: fast_exits(chk, 12 if tier == "quick" else 200)),
             ("many-fast-parallel", lambda: many_fast_parallel(chk, 3 if tier == "quick" else 30)),
-            ("spawn-between-exit-and-sigchld", lambda: spawn_between_exit_and_sigchld(chk))]
+            ("spawn-between-exit-and-sigchld", lambda: spawn_between_exit_and_sigchld(chk)),
+            ("stopped-task-sequential", lambda: stopped_task(chk, False)), ("stopped-task-j2", lambda: stopped_task(chk, True))]
     reps = 1 if tier == "quick" else 5
     for name, fn in scen:
         for _ in range(reps if name not in ("fast-exits", "many-fast-parallel") else 1):
